@@ -347,7 +347,7 @@ def cases(tier):
                     for ocf in ((0, 1) if kind != "truncated" else (0,)):
                         for vcf in (tier_pick(tier, (0, 3), (0, 1, 3, 7)) if kind != "truncated" else (0,)):
                             for n in ns:
-                                if tier == "quick" and (iz, fecf, ocf, vcf) not in ((0, 0, 0, 0), (2, 2, 1, 3), (2, 0, 0, 0), (0, 2, 1, 0)) and kind != "truncated":
+                                if tier == "quick" and (iz, fecf, ocf, vcf) not in ((0, 0, 0, 0), (2, 2, 1, 3), (2, 0, 0, 0), (0, 2, 1, 0), (0, 0, 1, 0), (2, 0, 1, 3)) and kind != "truncated":
                                     continue
                                 cs.append(Case("frame-r%d-%s-iz%d-f%d-o%d-v%d-n%d" % (rule, kind, iz, fecf, ocf, vcf, n), "frame", h_frame,
                                                dict(rule=rule, kind=kind, iz=iz, fecf=fecf, ocf=ocf, vcf=vcf, n=n),
